@@ -88,9 +88,9 @@ def directed_truncation(chk):
     p0 = dict(s.probability_distribution)
     chk.count(key="directed-truncation")
     try:
-        r1 = s.sample_N_inputs(20, seed=1)
+        r1 = s.sample_N_inputs(400000, seed=1)
         p1 = dict(s.probability_distribution)
-        r2 = s.sample_N_inputs(20, seed=1)
+        r2 = s.sample_N_inputs(400000, seed=1)
     except Exception as e:  # noqa: BLE001
         from ..common import library_raised
         if not library_raised(e):
